@@ -72,7 +72,153 @@ func Conc(seed int64, goroutines, iters int) []trace.Event {
 		wg.Wait()
 		evs = append(evs, res...)
 	}
+	// pooled objects after lifecycle corner cases, with several users alive at the same time (one goroutine, fixed
+	// interleaving): Close twice (protocol/record_v1.go does that itself), abandon, then k writers / k readers open at once
+	for _, c := range list {
+		rng := rand.New(rand.NewSource(seed*31337 + int64(len(c.name)+len(c.mode))))
+		fails, first, nbytes, rounds := 0, "", 0, 12
+		func() {
+			defer func() {
+				if p := recover(); p != nil {
+					fails++
+					if first == "" {
+						first = fmt.Sprint("panic: ", p)
+					}
+				}
+			}()
+			for round := 0; round < rounds; round++ {
+				if why := interleaved(c.name, c.c, seed*1000+int64(round), rng, &nbytes); why != "" {
+					fails++
+					if first == "" {
+						first = fmt.Sprintf("round=%d: %s", round, why)
+					}
+				}
+			}
+		}()
+		evs = append(evs, trace.Event{"ev": "conc", "codec": c.name, "mode": c.mode, "g": 1000, "goroutines": 1, "iters": rounds,
+			"fails": fails, "first": first, "bytes": nbytes, "kind": "interleaved"})
+	}
 	return evs
+}
+
+// interleaved: some writers and readers are closed twice, then k writers are open at the same time and written to in turn,
+// then k readers likewise; every stream must decode to its own payload.
+func interleaved(name string, c compress.Codec, seed int64, rng *rand.Rand, nbytes *int) string {
+	for i := 0; i < 1+rng.Intn(3); i++ {
+		sk := &sink{budget: -1}
+		w := c.NewWriter(sk)
+		w.Write(Payload("text", seed+int64(i), 1+rng.Intn(5000)))
+		if err := w.Close(); err != nil {
+			return "Close: " + err.Error()
+		}
+		w.Close() // a second Close must be harmless
+		ref, err := refEncodeAny(name, Payload("rep", seed+7, 3000), rng)
+		if err != nil {
+			return err.Error()
+		}
+		r := c.NewReader(&source{b: ref, endErr: io.EOF})
+		io.Copy(io.Discard, r)
+		r.Close()
+		r.Close()
+	}
+	k := 2 + rng.Intn(3)
+	datas := make([][]byte, k)
+	sinks := make([]*sink, k)
+	ws := make([]io.WriteCloser, k)
+	for i := range ws {
+		n := []int{1, 1500, 4096, 40000, 70000}[rng.Intn(5)]
+		datas[i] = Payload(concClasses[rng.Intn(len(concClasses))], seed*10+int64(i), n)
+		*nbytes += n
+		sinks[i] = &sink{budget: -1}
+		ws[i] = c.NewWriter(sinks[i])
+	}
+	pos := make([]int, k)
+	for done := 0; done < k; {
+		done = 0
+		for i := range ws {
+			if pos[i] >= len(datas[i]) {
+				done++
+				continue
+			}
+			n := 4096
+			if n > len(datas[i])-pos[i] {
+				n = len(datas[i]) - pos[i]
+			}
+			if m, err := ws[i].Write(datas[i][pos[i] : pos[i]+n]); err != nil || m != n {
+				return fmt.Sprintf("writer %d of %d open at once: Write(%d) = %d, %v", i, k, n, m, err)
+			}
+			pos[i] += n
+		}
+	}
+	for i := range ws {
+		if err := ws[i].Close(); err != nil {
+			return fmt.Sprintf("writer %d of %d: Close: %v", i, k, err)
+		}
+	}
+	for i := range ws {
+		out := sinks[i].buf.Bytes()
+		var dec []byte
+		if name == "snappy" {
+			p := ParseSnappy(out)
+			if p.Rest != 0 {
+				return fmt.Sprintf("writer %d of %d open at once: output not parsable", i, k)
+			}
+			dec = p.Decoded
+		} else {
+			var err error
+			if dec, err = RefDecode(name, out); err != nil {
+				return fmt.Sprintf("writer %d of %d open at once: reference decoder: %v", i, k, err)
+			}
+		}
+		if !bytes.Equal(dec, datas[i]) {
+			return fmt.Sprintf("writer %d of %d open at once: stream decodes to %d bytes, %d were written", i, k, len(dec), len(datas[i]))
+		}
+	}
+	// k readers open at once
+	rs := make([]io.ReadCloser, k)
+	gots := make([][]byte, k)
+	for i := range rs {
+		ref, err := refEncodeAny(name, datas[i], rng)
+		if err != nil {
+			return err.Error()
+		}
+		rs[i] = c.NewReader(&source{b: ref, endErr: io.EOF})
+	}
+	buf := make([]byte, 4096)
+	open := k
+	eof := make([]bool, k)
+	for idle := 0; open > 0 && idle < 100000; idle++ {
+		for i := range rs {
+			if eof[i] {
+				continue
+			}
+			n, err := rs[i].Read(buf)
+			gots[i] = append(gots[i], buf[:n]...)
+			if err == io.EOF {
+				eof[i] = true
+				open--
+			} else if err != nil {
+				return fmt.Sprintf("reader %d of %d open at once: %v", i, k, err)
+			}
+		}
+	}
+	for i := range rs {
+		rs[i].Close()
+		if !bytes.Equal(gots[i], datas[i]) {
+			return fmt.Sprintf("reader %d of %d open at once returns different bytes (%d for %d)", i, k, len(gots[i]), len(datas[i]))
+		}
+	}
+	return ""
+}
+
+func refEncodeAny(name string, data []byte, rng *rand.Rand) ([]byte, error) {
+	switch {
+	case name == "snappy" && rng.Intn(2) == 0:
+		return snappyRaw(data), nil
+	case name == "snappy":
+		return BuildXerial(data, []int{32768}), nil
+	}
+	return RefEncode(name, data)
 }
 
 func roundTrip(name string, c compress.Codec, data []byte, rng *rand.Rand) string {
